@@ -136,7 +136,13 @@ impl<'a> ExecutionEngine<'a> {
     pub fn execute(&mut self, line: String, config: &ExecutionConfig) -> ExecutionResult<ExecutionOutput> {
         match self.statement {
             Statement::Select(select_statement) => {
-                let output = self.execute_select(&select_statement, line)?;
+                let mut output = self.execute_select(&select_statement, line)?;
+
+                // Never hand out more than the rows still allowed (LIMIT 0, several joined rows for one line)
+                if let (Some(limit), Some(row)) = (select_statement.limit, output.result_row.as_mut()) {
+                    row.data.truncate(limit.saturating_sub(self.num_output_rows));
+                }
+
                 let output = self.update_limit(select_statement.limit, output);
                 Ok(output)
             }
@@ -314,7 +320,8 @@ impl<'a> ExecutionEngine<'a> {
 
     fn update_limit(&mut self, limit: Option<usize>, mut output: ExecutionOutput) -> ExecutionOutput {
         if let Some(row) = output.result_row.as_ref() {
-            self.num_output_rows += row.data.iter().filter(|row| row.any_result()).count();
+            // Rows consisting only of NULLs are output rows as well
+            self.num_output_rows += row.data.len();
         }
 
         if let Some(limit) = limit {
